@@ -84,9 +84,10 @@ Definition plan_caps (row : rx_row) (p : plan) (texts : list bytes) : caps :=
 
 (* the rows the universal theorem covers: plan checked, every segment non-empty, every named group
    pinned to one item (or never captured), slice starts at 0 *)
-Definition plan_covers (row : rx_row) (p : plan) : bool :=
-  chain_ok OAbs (rx_re row) p && forallb (fun sg => match sg with [] => false | _ => true end) p
+Definition plan_covers_at (o : org) (row : rx_row) (p : plan) : bool :=
+  chain_ok o (rx_re row) p && forallb (fun sg => match sg with [] => false | _ => true end) p
   && fields_located row p && (rx_start row =? 0).
+Definition plan_covers (row : rx_row) (p : plan) : bool := plan_covers_at OAbs row p.
 Definition row_covered (row : rx_row) : bool := plan_covers row (row_plan row).
 
 (* ------------------------------------------------------------------ decomposing a concrete slice along a plan
@@ -118,3 +119,24 @@ Definition in_domain (p : plan) (sl : bytes) : option (list bytes * bytes) :=
                if texts_ok p ts rest then Some (ts, rest) else None
   | None => None
   end.
+
+(* the same with a dead prefix in front (unanchored rows): the number of leading offsets that are dead, and
+   the first cut k >= 1 after which the slice decomposes along the plan for offsets >= 1 *)
+Fixpoint dead_run (r : re) (o : org) (s : bytes) : nat :=
+  match s with
+  | b1 :: l => if dead_at r o b1 (hd_opt l) then S (dead_run r ONz l) else O
+  | [] => O
+  end.
+Fixpoint first_cut (p : plan) (s : bytes) (k kmax : nat) : option (nat * (list bytes * bytes)) :=
+  match kmax with
+  | O => None
+  | S km => match s with
+            | [] => None
+            | _ :: l => match in_domain p l with
+                        | Some d => Some (S k, d)
+                        | None => first_cut p l (S k) km
+                        end
+            end
+  end.
+Definition in_domain_pre (r : re) (pnz : plan) (sl : bytes) : option (nat * (list bytes * bytes)) :=
+  first_cut pnz sl 0 (dead_run r OAbs sl).
